@@ -457,6 +457,13 @@ func Run(r *ev.Run) {
 			}
 			frs = append(frs, fr{fmt.Sprintf("big%d-in-%d-byte-records", tf[0], tf[1]), tlsref.Fragment(0x0301, h.Msg(), cuts...), h})
 		}
+		// the records of one hello need not carry the same legacy_record_version (it "MUST be ignored for all purposes"): 0301
+		// then 0303, the reverse, a last fragment marked 0304
+		for vi, vers := range [][]uint16{{0x0301, 0x0303, 0x0303}, {0x0303, 0x0301, 0x0301}, {0x0301, 0x0301, 0x0304}, {0x0300, 0x0303, 0x0302}} {
+			stream := cat2(tlsref.Record(22, vers[0], msg[:40]), tlsref.Record(22, vers[1], msg[40:90]))
+			stream = append(stream, tlsref.Record(22, vers[2], msg[90:])...)
+			frs = append(frs, fr{fmt.Sprintf("small-mixed-record-versions%d", vi), stream, small})
+		}
 		tail := cat2(tlsref.Record(20, 0x0303, []byte{1}), tlsref.Record(23, 0x0303, tlsref.DetBytes("app", 50)))
 		for _, f := range frs {
 			for ksi := range ks {
